@@ -2,6 +2,7 @@ package reporting
 
 import (
 	"go/token"
+	"strings"
 
 	"golang.org/x/tools/go/analysis"
 
@@ -31,9 +32,10 @@ func zzCat(code string) string {
 // ZZC17Report: the single reporter, for an arbitrary violation (any of the 16 documented codes or an unknown one, any
 // message, any position) and an arbitrary marker (7 tokens, any range) plus an arbitrary global token: Report is called
 // iff the violation's OWN code is not suppressed at its OWN position, with that position and a message that starts
-// "error: [<that code>] <message>".
+// "error: [<that code>] <message>" and — the source being unreadable here — has no excerpt but still links to the
+// documentation page of the code's category.
 func ZZC17Report() {
-	code := nd.Enum("code", "IMM01", "IMM02", "IMM03", "IMM04", "CTOR01", "CTOR02", "CTOR03", "TONL01", "TONL02", "TONL03", "PKGO01", "PKGO02", "PKGO03", "IMPL01", "IMPL02", "IMPL03", "ZZZ9")
+	code := nd.PinStr(nd.Enum("code", "IMM01", "IMM02", "IMM03", "IMM04", "CTOR01", "CTOR02", "CTOR03", "TONL01", "TONL02", "TONL03", "PKGO01", "PKGO02", "PKGO03", "IMPL01", "IMPL02", "IMPL03", "ZZZ9"))
 	msg := nd.Str("msg", 4)
 	mtok := nd.Enum("marker_token", "ALL", "IMM", "IMM02", "CTOR", "TONL03", "PKGO01", "IMPL", "JUNK")
 	gtok := nd.Enum("global_token", "", "ALL", "TONL", "CTOR02", "ZZZ9")
@@ -67,6 +69,12 @@ func ZZC17Report() {
 	nd.Assert(reports <= 1, "at most one diagnostic per violation")
 	if reports == 1 {
 		nd.Assert(gotPos == pos, "diagnostic at the violation's position")
-		nd.Assert(gotMsg == "error: ["+code+"] "+msg+"\n", "message = error: [CODE] text (no excerpt when the file is unreadable)")
+		head := "error: [" + code + "] " + msg + "\n"
+		nd.Assert(len(gotMsg) >= len(head) && gotMsg[:len(head)] == head, "message starts with error: [CODE] text")
+		rest := gotMsg[len(head):]
+		nd.Assert(!strings.Contains(rest, " | ") && !strings.Contains(rest, "^"), "no excerpt when the file is unreadable")
+		if code != "ZZZ9" {
+			nd.Assert(strings.Contains(rest, zzDocURL(code)), "the message links to the documentation page of the code's category, with or without excerpt")
+		}
 	}
 }
